@@ -5,6 +5,7 @@ import OtelVerif.Lemmas.C02
 import OtelVerif.Lemmas.C02Live
 import OtelVerif.Lemmas.C02P
 import OtelVerif.Lemmas.C02Cond
+import OtelVerif.Lemmas.C02Cons
 /-!
 # C02 — sending queue: exactly-once hand-off, FIFO, bounded size, no lost wake-ups
 
@@ -242,14 +243,15 @@ def LegitWait (s : St) (p : Nat) : Prop :=
 /-- stuck-freedom (what can be said without a fairness assumption): in every reachable state every
 producer that is inside `Offer` either can take a step of its own — in particular the re-lock steps after
 the select are always enabled, no critical section of the repaired code waits for anything — or waits for a
-legitimate reason; a consumer parked in `Read` can move as soon as there is an item or the queue stopped;
+legitimate reason; a consumer notified on `hasMoreElements` can always re-take the lock and re-evaluate `Read`
+(whether a parked consumer is notified when it should be is `C02_no_request_waits_beside_parked_consumer`);
 a ended context always releases its producer -/
 theorem C02_deadlock_free_partial (hk : 0 ≤ k.cap) (hr : Reachable k s) :
     (∀ p, (s.ps p).ph = .idle ∨ (∃ r, (s.ps p).ph = .done r) ∨ LegitWait s p ∨
       ∃ l, l.internal = true ∧ (fire k s l).isSome = true) ∧
     (∀ p, (s.ps p).ph.inCond ∨ (s.ps p).ph = .waitRes → (s.ps p).canc = true →
       ∃ l, l.internal = true ∧ (fire k s l).isSome = true) ∧
-    (∀ c ∈ s.cwait, (s.items = [] ∧ s.stopped = false) ∨ (fire k s (.recheck c)).isSome = true) := by
+    (∀ c ∈ s.cwoken, (fire k s (.recheck c)).isSome = true) := by
   have hI := Inv.reachable hk hr
   have hprog : ∀ p, (s.ps p).ph.inCond ∨ (s.ps p).ph = .waitRes →
       (((s.ps p).ph = .sel ∧ p ∈ s.waiters) ∨ ((s.ps p).ph = .waitRes ∧ s.results.lookup p = none)) ∧ (s.ps p).canc = false ∨
@@ -300,12 +302,10 @@ theorem C02_deadlock_free_partial (hk : 0 ≤ k.cap) (hr : Reachable k s) :
     · rw [hc] at c; cases c
     · exact b
   · intro c hc
-    cases hi : s.items with
-    | nil =>
-      cases hst : s.stopped with
-      | false => exact Or.inl ⟨rfl, rfl⟩
-      | true => right; simp [fire, hc, pop, hi, hst]
-    | cons x t => right; obtain ⟨a, b⟩ := x; simp [fire, hc, pop, hi]
+    simp only [fire, hc, if_true]
+    cases pop s with
+    | some s1 => rfl
+    | none => cases s.stopped <;> rfl
 
 /-- the full liveness statement has two more ingredients that are NOT proved here: (1) the goroutines' own
 activity always comes to rest (no infinite run of internal labels — stated below; needs a ranking function
@@ -427,18 +427,22 @@ theorem drain_aux {k : Cfg} (hk : 0 ≤ k.cap) (L : List Nat) (n : Nat) (s : St)
         exact ⟨ls, s1, hd1, h2, C02_no_lost_wakeup hk hr1 h3 hz⟩
       | cons x t =>
         -- at rest with a queued item no consumer is parked; let consumer 0 read
-        have hcw : s1.cwait = [] := by
-          cases hcw : s1.cwait with
+        have hwk : s1.cwoken = [] := by
+          cases hwk : s1.cwoken with
           | nil => rfl
           | cons c cs =>
             have := h3 (.recheck c) rfl
             obtain ⟨a, b⟩ := x
-            simp [fire, hcw, pop, hit] at this
+            simp [fire, hwk, pop, hit] at this
+        have hcw : s1.cwait = [] := by
+          rcases (InvK.reachable hr1).woken with a | a
+          · exact a
+          · rw [hit, hwk] at a; simp at a
         obtain ⟨a, b⟩ := x
         have hp : pop s1 = some { s1 with items := t, inflight := s1.inflight ++ [(a, b)], handed := s1.handed ++ [a] } := by
           simp [pop, hit]
         obtain ⟨c1, c2⟩ := pop_measure h4 hp
-        exact next (.read 0) _ rfl (by simp [fire, hcw, hp]) c1 c2
+        exact next (.read 0) _ rfl (by simp [fire, hcw, hwk, hp]) c1 c2
 
 /-- **the drain theorem** (existence form of "a blocked producer is released once earlier requests finish"): from
 every reachable state there is a finite schedule consisting only of the goroutines' own steps, consumer reads
@@ -630,6 +634,61 @@ theorem C02_persistent_no_lost_wakeup (hk : 0 ≤ k.cap) (hr : PReachable k s) (
   · exact a hi
   · exact a hf
 
+/-! ## consumer side (`hasMoreElements`): no accepted request waits beside a parked consumer -/
+
+/-- memory queue, every schedule: while a consumer is parked in `Read`, at least as many consumers have been notified
+(and are on their way to the lock) as there are queued requests; after `Shutdown` nobody stays parked -/
+theorem C02_consumer_wakeups_conserved (hr : Reachable k s) :
+    (s.cwait = [] ∨ s.items.length ≤ s.cwoken.length) ∧ (s.stopped = true → s.cwait = []) :=
+  let h := InvK.reachable hr
+  ⟨h.woken, h.stop⟩
+
+/-- memory queue: once everything has come to rest, no accepted request sits in the queue while a consumer is parked
+in `Read` — for every schedule, any number of consumers, back-to-back enqueues included -/
+theorem C02_no_request_waits_beside_parked_consumer (hr : Reachable k s) (hq : Quiescent k s) :
+    s.cwoken = [] ∧ (s.cwait = [] ∨ s.items = []) := by
+  have hwk : s.cwoken = [] := by
+    cases hwk : s.cwoken with
+    | nil => rfl
+    | cons c cs =>
+      have := hq (.recheck c) rfl
+      simp only [fire, hwk, List.mem_cons, true_or, if_true] at this
+      cases hp : pop s with
+      | some s1 => simp [hp] at this
+      | none => cases hst : s.stopped <;> simp [hp, hst] at this
+  refine ⟨hwk, ?_⟩
+  rcases (InvK.reachable hr).woken with a | a
+  · exact Or.inl a
+  · rw [hwk] at a
+    exact Or.inr (List.length_eq_zero_iff.mp (by simpa using a))
+
+theorem C02_persistent_consumer_wakeups_conserved (hr : PReachable k s) :
+    (s.cwait = [] ∨ s.items.length ≤ s.cwoken.length) ∧ (s.stopped = true → s.cwait = []) :=
+  let h := InvK.preachable hr
+  ⟨h.woken, h.stop⟩
+
+/-- persistent queue: the same statement for `pfire` (this is what the seeded "signal only when the queue was empty
+before the write" change breaks) -/
+theorem C02_persistent_no_request_waits_beside_parked_consumer (hr : PReachable k s) (hq : PQuiescent k s) :
+    s.cwoken = [] ∧ (s.cwait = [] ∨ s.items = []) := by
+  have hwk : s.cwoken = [] := by
+    cases hwk : s.cwoken with
+    | nil => rfl
+    | cons c cs =>
+      have := hq (.recheck c) rfl
+      simp only [pfire, hwk, List.mem_cons, true_or, if_true] at this
+      cases hst : s.stopped with
+      | true => simp [hst] at this
+      | false =>
+        cases hp : ppop s with
+        | some s1 => simp [hst, hp] at this
+        | none => simp [hst, hp] at this
+  refine ⟨hwk, ?_⟩
+  rcases (InvK.preachable hr).woken with a | a
+  · exact Or.inl a
+  · rw [hwk] at a
+    exact Or.inr (List.length_eq_zero_iff.mp (by simpa using a))
+
 /-! ## the pinned cond.go (before the fix commit) deadlocks -/
 
 /-- two waiters whose contexts ended and that queue for the lock, two `Signal`s in a row: the second
@@ -772,10 +831,11 @@ theorem C02_check_soak_sound (c : Check.SCfg) (evs : List Check.SEv) (h : Check.
     (Check.handedOf evs).Nodup ∧
     (∀ id ∈ Check.handedOf evs, ∃ r ∈ Check.retsOf evs, r.1 = id ∧ Check.mayBeQueued c r = true) ∧
     (∀ r ∈ Check.retsOf evs, Check.surelyQueued c r = true → r.1 ∈ Check.handedOf evs) ∧
-    (∀ n ∈ Check.sizesOf evs, 0 ≤ n ∧ n ≤ c.cap) ∧ (∀ n ∈ Check.finalsOf evs, n = 0) := by
+    (∀ n ∈ Check.sizesOf evs, 0 ≤ n ∧ n ≤ c.cap) ∧ (∀ n ∈ Check.finalsOf evs, n = 0) ∧
+    (∀ hd w, Check.SEv.stall hd w ∈ evs → w ≤ hd) := by
   simp only [Check.soakAll, Bool.and_eq_true] at h
-  obtain ⟨⟨⟨⟨⟨h1, h2⟩, h3⟩, h4⟩, _⟩, _⟩ := h
-  refine ⟨nodupB_sound _ h1, ?_, ?_, ?_, ?_⟩
+  obtain ⟨⟨⟨⟨⟨⟨h1, h2⟩, h3⟩, h4⟩, _⟩, _⟩, h7⟩ := h
+  refine ⟨nodupB_sound _ h1, ?_, ?_, ?_, ?_, ?_⟩
   · intro id hid
     simp only [Check.soakOnlyAccepted, List.all_eq_true, List.any_eq_true] at h2
     obtain ⟨r, hr, hrr⟩ := h2 id hid
@@ -791,6 +851,13 @@ theorem C02_check_soak_sound (c : Check.SCfg) (evs : List Check.SEv) (h : Check.
   · intro n hn
     simp only [Check.soakSizes, Bool.and_eq_true, List.all_eq_true] at h4
     simpa using h4.2 n hn
+  · intro hd w hm
+    simp only [Check.soakStall, List.all_eq_true] at h7
+    simpa using h7 _ hm
+
+theorem C02_check_parked_sound (queued parked : Nat) (h : Check.parkedClause queued parked = true) :
+    queued = 0 ∨ parked = 0 := by
+  simpa [Check.parkedClause] using h
 
 /-! ## what the cond-level oracle `CMon` simulates is the LTS's own signal accounting -/
 
